@@ -331,11 +331,40 @@ def validate_translation(res, rnd, k=6, pre=None):
     return n_cmp, bad
 
 # ----------------------------------------------------------------------------- solver front ends
+_WD = {'pid': None, 'deadline': None, 'solver': None, 'keep': []}
+def _wd_loop():
+    while True:
+        time.sleep(0.5)
+        d = _WD['deadline']
+        if d is not None and time.time() > d:
+            _WD['deadline'] = None
+            try:
+                if _WD['solver'] is not None: _WD['solver'].interrupt()      # Z3_solver_interrupt: a no-op unless a check() of that solver is running
+            except Exception: pass
+def guarded_check(solver, timeout_s):
+    """solver.check() with a watchdog: some z3 tactics (nlsat, parts of the fp/bv preprocessing) do not poll their 'timeout' parameter.  One daemon thread per
+    process calls Z3_solver_interrupt a few seconds after the deadline (ctypes releases the GIL during check), which makes check() return unknown.  The main
+    thread keeps the last solvers alive in _WD['keep'] so that the watchdog thread never drops the last reference to a z3 object (z3 is not thread-safe)."""
+    if os.environ.get('VERIF_NO_WATCHDOG'): return solver.check()
+    import threading
+    if _WD['pid'] != os.getpid():
+        _WD['pid'] = os.getpid(); _WD['deadline'] = None; _WD['solver'] = None; _WD['keep'] = []
+        th = threading.Thread(target=_wd_loop, daemon=True); th.start()
+    _WD['keep'].append(solver)
+    if len(_WD['keep']) > 3: _WD['keep'].pop(0)
+    _WD['solver'] = solver
+    _WD['deadline'] = time.time() + timeout_s + 3.0
+    try: return solver.check()
+    except z3.Z3Exception as e:
+        if 'cancel' in str(e) or 'interrupt' in str(e): return z3.unknown
+        raise
+    finally: _WD['deadline'] = None
+
 def _z3_check(asserts, timeout_s, tactic=None):
     s = z3.Solver() if tactic is None else z3.Tactic(tactic).solver()
     s.set('timeout', int(timeout_s * 1000))
     s.add(*asserts)
-    t = time.time(); r = s.check(); dt = time.time() - t
+    t = time.time(); r = guarded_check(s, timeout_s); dt = time.time() - t
     m = s.model() if r == z3.sat else None
     return str(r), m, dt, s
 
@@ -441,7 +470,7 @@ class Session:
             for sl in (2.0, min(10.0, timeout / 5.0)):
                 for tag, lst in (('A', fresh_first), ('B', core)):
                     sv = z3.With('qfnra-nlsat', **{'nlsat.reorder': False}).solver(); sv.set('timeout', int(sl * 1000)); sv.add(*lst)
-                    t = time.time(); r = str(sv.check()); tot += time.time() - t; used.append(tag)
+                    t = time.time(); r = str(guarded_check(sv, sl)); tot += time.time() - t; used.append(tag)
                     if r != 'unknown': return r, (sv.model() if r == 'sat' else None), tot, 'z3 qfnra-nlsat(reorder=false;%s)' % ''.join(used)
             r, m, dt2, _ = _z3_check(core, max(1.0, timeout - tot)); return r, m, tot + dt2, 'z3 qfnra-nlsat(reorder=false;ABAB)+z3'
         if solver == 'qfnra':
